@@ -46,7 +46,7 @@ func runC09(r *engine.Run) {
 			wf = append(wf, f)
 		}
 	}
-	errGuard(r, "ERR-guard", "ERR-dropped", wf, 20)
+	errGuard(r, "ERR-guard", "ERR-dropped", wf, 10)
 	depLinkBack(r, "DEP-linkback")
 	agreeUpdate(r, "AGREE-update")
 	domMemo(r, "DOM-memo")
@@ -65,10 +65,8 @@ func wfn(r *engine.Run, rule, name string) *ssa.Function {
 // resolved replacement.
 func positionValues(f *ssa.Function, param string) map[ssa.Value]bool {
 	out := map[ssa.Value]bool{}
-	for _, p := range f.Params {
-		if p.Name() == param {
-			out[p] = true
-		}
+	if p := paramRole(f, param); p != nil {
+		out[p] = true
 	}
 	for changed := true; changed; {
 		changed = false
@@ -224,12 +222,7 @@ func depWeight(r *engine.Run) {
 		if f == nil {
 			continue
 		}
-		var nodeParam ssa.Value
-		for _, p := range f.Params {
-			if p.Name() == "node" {
-				nodeParam = p
-			}
-		}
+		nodeParam := paramRole(f, "node")
 		arms := typeArms(f, nodeParam)
 		for _, kind := range []string{"routingNode", "shortNode"} {
 			arm := arms[kind]
@@ -310,7 +303,7 @@ func depWeight(r *engine.Run) {
 			}
 		}
 	}
-	r.Min(rule, 5)
+	r.Min(rule, 4)
 }
 
 var wHashed = map[string]map[string]bool{
@@ -410,12 +403,7 @@ func weightCallOn(v ssa.Value, recv func(ssa.Value) bool) bool {
 // the recursive/descending call `desc` happens only under block <= child.Weight()
 // and the loop continues with block - child.Weight().
 func rangeGuards(r *engine.Run, rule string, f *ssa.Function, isDescent func(*ssa.Call) bool) {
-	var blockParam ssa.Value
-	for _, p := range f.Params {
-		if p.Name() == "block" {
-			blockParam = p
-		}
-	}
+	blockParam := paramRole(f, "block")
 	if blockParam == nil {
 		r.Anchor(rule, fmt.Errorf("unresolved anchor: block parameter of %s", fn(f)))
 		return
@@ -528,12 +516,7 @@ func domDirtyPath(r *engine.Run) {
 		if f == nil {
 			continue
 		}
-		var nodeParam ssa.Value
-		for _, p := range f.Params {
-			if p.Name() == "node" {
-				nodeParam = p
-			}
-		}
+		nodeParam := paramRole(f, "node")
 		arms := typeArms(f, nodeParam)
 		for _, kind := range []string{"routingNode", "shortNode"} {
 			arm := arms[kind]
@@ -774,12 +757,7 @@ func agreeUpdate(r *engine.Run, rule string) {
 	if f == nil {
 		return
 	}
-	var payload ssa.Value
-	for _, p := range f.Params {
-		if p.Name() == "value" {
-			payload = p
-		}
-	}
+	payload := paramRole(f, "value")
 	if payload == nil {
 		r.Anchor(rule, fmt.Errorf("unresolved anchor: payload parameter of insert"))
 		return
